@@ -556,7 +556,8 @@ def _oracle_slice(c, out):
             out.append(("decode-window", {"got": r[-80:], "input_len": n}))
     elif not r.startswith("err("):
         out.append(("malformed-impl-output", {"impl": c.impl}))
-    if len(c.lines) > 1:
+    if len(c.lines) > 1 and c.lines[0].split("\t")[1:] == c.lines[1].split("\t")[1:]:
+        # (the second condition: a shrinking step that cuts only one of the two inputs is not a candidate)
         # from_slice_lax on the same input: same struct / number / rest when strict succeeds, the
         # strict error (plus a layer) next to a decoded prefix when strict fails
         lx = c.impl[1]
